@@ -97,6 +97,10 @@ def cells(tier):
             for op in ('EAStoryInsert', 'roItemInsert', 'EAItemInsert'):
                 out.append(pcell(op, N, k, tk='blank', T=T))
             out.append(pcell('EAStoryInsert', N, k, tk='absent', T=T))
+    if tier == 'quick':
+        for op in ('roStoryInsert', 'roStoryReplace', 'EAStoryReplace', 'roItemInsert', 'roItemReplace',
+                   'EAItemReplace', 'EAItemInsert', 'EAStoryInsert', 'roStoryAppend'):
+            out.append(pcell(op, 2, 3, T=T))
     out.append(pcell('roStoryInsert', 3, 1, gap=0, trail=1, T=T))
     out.append(pcell('roStoryReplace', 3, 2, gap=1, trail=1, T=T))
     for body in ('', 'p', 'i', 'pi', 'ip', 'pipo', 'oipi', 'iii', 'ppp'):
